@@ -218,6 +218,8 @@ def check(case):
             w.control_between = True
         elif k == "adv":
             return adversarial(w, i, op, history)
+        elif k == "fin":
+            return departed(w, i, op, history)
         else:
             raise HarnessError(op)
     # ---------------------------------------------------------- quiescence --
@@ -295,6 +297,71 @@ def check(case):
                        labels=w.labels)
     nt = w.data_after_control and any(len(w.fifo[s]) for s in "cs")
     return good(nt=nt, labels=sorted(set(w.labels)))
+
+
+def departed(w, i, op, history):
+    """``side`` sends control traffic, then data, then closes and goes away
+    before the peer reads any of it: answers to the control traffic can no
+    longer be delivered, the data and the orderly close still must be."""
+    _, side, n = op
+    p = w.p
+    conn = p.conn(side)
+    peer = p.conn(other(side))
+    # earlier requests that need an answer (requested KeyUpdate, client
+    # authentication) are answered first: an answer that cannot be sent is
+    # a transport failure of that read, C17's subject
+    for _ in range(2):
+        for sd in "cs":
+            got, last = drain(w, sd)
+            r = fifo_check(w, sd, got, "drain")
+            if r:
+                return r
+            if last is not None and last.state == "exc":
+                return bad("drain-fails:%s" % describe_exc(last.exc),
+                           "history %r" % (history[:i + 1],),
+                           labels=w.labels)
+    if conn.heartbeat_supported and conn.heartbeat_can_send:
+        drive({side: conn.write_heartbeat(bytearray(b"going"), 16)}, p.link,
+              on_stall="leave")
+        w.labels.append("fin-hb")
+    if w.v == (3, 4):
+        # (update_not_requested: a requested update needs an answer, whose
+        # failure is a transport failure of the read, C17's subject)
+        drive({side: conn.send_keyupdate_request(0)}, p.link,
+              on_stall="leave")
+    data = prg(b"C16/fin%d" % i, n)
+    o = sc.do_write(p, side, data)
+    if not o.ok:
+        return bad("write-fails-after-control-traffic",
+                   "step %d %r: %r" % (i, op, o), labels=w.labels)
+    w.fifo[side] += data
+    o = sc.do_close(p, side)
+    if not o.ok:
+        return bad("close-fails-after-control-traffic", repr(o),
+                   labels=w.labels)
+    raw = peer.sock
+    while hasattr(raw, "socket"):
+        raw = raw.socket
+    raw.tx_fault = (raw.tx_total, "pipe")
+    got, last = drain(w, other(side))
+    r = fifo_check(w, other(side), got, "departed")
+    if r:
+        return r
+    hist = "history %r" % (history[:i + 1],)
+    if last is not None and last.state == "exc":
+        return bad("read-fails-after-peer-left:%s" % describe_exc(last.exc),
+                   hist, labels=w.labels)
+    if w.taken[side] != len(w.fifo[side]):
+        return bad("data-lost-after-control-traffic",
+                   "%d of %d bytes from %s arrived; %s" % (
+                       w.taken[side], len(w.fifo[side]), side, hist),
+                   labels=w.labels)
+    if not peer.closed:
+        return bad("close-not-seen-after-control-traffic", hist,
+                   labels=w.labels)
+    if peer.session is not None and not peer.session.resumable:
+        return bad("orderly-close-kills-resumability", hist, labels=w.labels)
+    return good(nt=n > 0, labels=sorted(set(w.labels)))
 
 
 ADV = {
@@ -434,8 +501,12 @@ def cases(draw, tier):
     v = draw(st.sampled_from(["tls13", "tls13", "tls13", "tls12"]))
     ops = draw(st.lists(op_strategy(), min_size=3,
                         max_size=14 if tier == "quick" else 30))
-    if draw(st.integers(0, 2)) == 0:
+    z = draw(st.integers(0, 5))
+    if z in (0, 1):
         ops.append(["adv", draw(st.sampled_from(sorted(ADV)))])
+    elif z == 2:
+        ops.append(["fin", draw(st.sampled_from("cs")),
+                    draw(st.sampled_from([0, 1, 300, 20000]))])
     return {"v": v, "ops": ops, "salt": draw(st.integers(0, 3))}
 
 
@@ -463,6 +534,9 @@ def explicit(tier, seed):
     yield {"v": "tls13", "ops": [["pha"], ["pha"], ["w", "c", 5],
                                  ["r", "c"], ["r", "s"], ["ku", "c", False],
                                  ["w", "c", 9], ["r", "s"]]}
+    for v in ("tls13", "tls12"):
+        for side in "cs":
+            yield {"v": v, "ops": [["w", "c", 3], ["fin", side, 300]]}
     # the zero-byte pump with data right behind the control message
     for v in ("tls13", "tls12"):
         yield {"v": v, "ops": [["ku", "c", False], ["w", "c", 50],
